@@ -314,6 +314,8 @@ def c13():
         j("c13_clone_create_on_orig_tri_2", T, 250, "growth of the original after cloning"),
         j("c13_clone_recycle_on_orig_other_2", T, 200, "2-column archetype"),
         j("c13_clone_foo_0", T, 40, "clone of a capacity-0 archetype"),
+        J("c17_clear_arch_clone_2", Q, 250, what="feature events: the clone carries the same pending created/destroyed events; clearing one side does not clear the other",
+          bounds=b, assumes=a, features=("events",)),
     ]
 
 
@@ -323,7 +325,10 @@ def c05_e1():
     names = [("c05_iter_single_component", Q), ("c05_iter_two_components", T), ("c05_iter_borrow_one_of", Q), ("c05_iter_component_and_one_of", Q),
              ("c05_iter_typed_entity", T), ("c05_iter_borrow_wild_and_direct", T), ("c05_find_unmatched", Q), ("c05_find_borrow_unmatched", T),
              ("c05_iter_destroy_one_of", Q)]
-    return [J(h, t, 200, what="real query over a real 4-archetype world: closure runs for exactly the matching archetypes with their own columns", bounds=b, assumes=a) for h, t in names]
+    jobs = [J(h, t, 200, what="real query over a real 4-archetype world: closure runs for exactly the matching archetypes with their own columns", bounds=b, assumes=a) for h, t in names]
+    jobs.append(J("c16_iter_destroy_cfg_component", Q, 100, what="ecs_iter_destroy! with a cfg-disabled component parameter acts on every archetype the erased query matches", bounds=b, assumes=a))
+    jobs.append(J("c16_query_cfg_mixed_predicates", T, 150, what="all five macros with cfg-decorated parameters", bounds=b, assumes=a))
+    return jobs
 
 
 PANIC_BORROW = (("placeholder message", "panic_already"),)
@@ -349,6 +354,9 @@ def c11():
     cells = re.findall(r"^\s*(c11_panic_\w+):", src, re.M)
     quick_p = {"c11_panic_slice_m_slice_s", "c11_panic_comp_s_comp_m", "c11_panic_find_m_find_m", "c11_panic_iter_s_iter_m",
                "c11_panic_slice_m_clone", "c11_panic_iter_m_clone", "c11_panic_find_s_comp_m", "c11_panic_comp_m_iter_m"}
+    jobs.append(J("c11b_panic_clone_outer_mut_same_column", Q, 40, what="clone as the OUTER access: a mutable borrow of the same column made from inside a component's Clone impl panics", bounds=b, assumes=a, expect_fail=PANIC_BORROW))
+    jobs.append(J("c11b_panic_clone_outer_mut_other_column", T, 40, what="clone as the OUTER access: mutable borrow of another column of the archetype being cloned panics", bounds=b, assumes=a, expect_fail=PANIC_BORROW))
+    jobs.append(J("c11b_ok_clone_outer_shared_reentry", Q, 40, what="clone as the OUTER access: shared re-entry and a mutable borrow in another archetype succeed", bounds=b, assumes=a))
     for h in cells:
         jobs.append(J(h, Q if h in quick_p else T, 30, what="conflicting nested access panics (already borrowed); nothing after it is reachable", bounds=b, assumes=a,
                       expect_fail=PANIC_BORROW))
@@ -377,9 +385,9 @@ def c17():
         return J(h, t, c, what=w, bounds=b, assumes=a, features=f)
     return [
         j("c17_delta_create_2", Q, 150, "create appends exactly the returned handle to the created log"),
-        j("c17_delta_within_2", T, 150, "create_within_capacity: Ok appends, Err appends nothing"),
+        j("c17_delta_within_2", Q, 150, "create_within_capacity: Ok appends, Err appends nothing"),
         j("c17_delta_destroy_wtyped_2", T, 200, "World::destroy(Entity) appends exactly the destroyed handle; miss appends nothing"),
-        j("c17_delta_destroy_wany_2", Q, 200, "World::destroy(EntityAny)"),
+        j("c17_delta_destroy_wany_2", T, 200, "World::destroy(EntityAny)"),
         j("c17_delta_destroy_typed_3", T, 300, "Archetype::destroy(Entity), N=3"),
         j("c17_delta_destroy_any_2", T, 200, "Archetype::destroy(EntityAny)"),
         j("c17_delta_destroy_direct_2", Q, 200, "destroy(EntityDirect)"),
@@ -450,6 +458,8 @@ PROPERTIES = {
     "C14": dict(e2=True, jobs=c14_e1, title="Handle conversions are lossless"),
     "C15": dict(e2=True, jobs=c15_e1, title="Ids follow the discriminant rule"),
     "C16": dict(e2=True, jobs=lambda: [J("c16_query_cfg_params", Q, 100, what="real queries with #[cfg(any())] / #[cfg(all())] parameters behave as the erased / unannotated query (E1 corpus)", bounds="one world, 4 queries"),
+                                       J("c16_query_cfg_mixed_predicates", Q, 150, what="queries with several distinct cfg predicates of different truth values, both orders, repeated predicate, all five macros", bounds="one world, 7 queries"),
+                                       J("c16_iter_destroy_cfg_component", Q, 100, what="ecs_iter_destroy! with a cfg-disabled component parameter only one archetype has", bounds="one world"),
                                        J("c16_decl_cfg_items", Q, 100, what="real declaration with cfg-disabled archetype and component: ids, matching and storage as if absent (E1 corpus)", bounds="one declaration")],
                 title="#[cfg]-disabled items behave as absent"),
     "C17": dict(jobs=c17, title="Event logs are exact"),
